@@ -38,9 +38,9 @@ type PrintStmt struct{ E Expr }
 type EvalStmt struct{ E Expr }
 type ExprStmt struct{ E Expr } // only inside blocks
 type DefStmt struct {
-	Type    string
-	Name    string // token text incl. quotes, "" if absent
-	Body    []Stmt
+	Type string
+	Name string // token text incl. quotes, "" if absent
+	Body []Stmt
 }
 type BindStmt struct {
 	Type string
@@ -223,29 +223,29 @@ type vinfo struct {
 }
 
 type scope struct {
-	vars   []vinfo          // visible variables, innermost last
-	nvarsOuter int          // how many belong to enclosing scopes (for duplicate check)
-	fields []vinfo          // fields assigned so far in this block
-	outer  *scope
-	inBlock bool
+	vars       []vinfo // visible variables, innermost last
+	nvarsOuter int     // how many belong to enclosing scopes (for duplicate check)
+	fields     []vinfo // fields assigned so far in this block
+	outer      *scope
+	inBlock    bool
 }
 
 type Gen struct {
-	r     *rand.Rand
-	Stats map[string]int
-	MaxDepth int
-	ErrRate  int // 1/ErrRate of operations deliberately ill-typed (0 = never)
-	Blocks   []string // types of completed toplevel blocks (for bind)
-	OneLineStrings bool // no string literal whose value contains a line break
+	r              *rand.Rand
+	Stats          map[string]int
+	MaxDepth       int
+	ErrRate        int      // 1/ErrRate of operations deliberately ill-typed (0 = never)
+	Blocks         []string // types of completed toplevel blocks (for bind)
+	OneLineStrings bool     // no string literal whose value contains a line break
 }
 
 func NewGen(r *rand.Rand) *Gen {
 	return &Gen{r: r, Stats: map[string]int{}, MaxDepth: 5, ErrRate: 12}
 }
 
-func (g *Gen) count(k string) { g.Stats[k]++ }
+func (g *Gen) count(k string)          { g.Stats[k]++ }
 func (g *Gen) pick(xs []string) string { return xs[g.r.Intn(len(xs))] }
-func (g *Gen) chance(n int) bool { return n > 0 && g.r.Intn(n) == 0 }
+func (g *Gen) chance(n int) bool       { return n > 0 && g.r.Intn(n) == 0 }
 
 var intSpellings = []string{"0", "1", "2", "3", "7", "10", "42", "255", "1000", "65536", "00", "01", "007", "017", "0x0", "0x1", "0X1f", "0xFF", "0xdeadBEEF", "9223372036854775807", "4611686018427387904", "2147483648", "123456789"}
 var badIntSpellings = []string{"08", "0x", "9223372036854775808", "09", "99999999999999999999"}
@@ -637,7 +637,6 @@ func Render(ss []Stmt, r *rand.Rand, fancy bool) string {
 	semi := func() bool { return r.Intn(4) == 0 }
 	return l.Join(progToks(ss, semi))
 }
-
 
 // WideProgram: programs that push indices beyond the one-byte varint range and onto
 // particular byte values: hundreds of variables (slots 28, 240, 241, 248, 249, 255, 256 …),
